@@ -44,6 +44,9 @@ type Backend struct {
 	EndUser  string   `json:"end_user"`
 	Prefixes []string `json:"prefixes"`
 	Age      string   `json:"age"` // never | 0 | 4m58s | 5m02s | 1h
+	// History, when set, continues after the first registration: the same id is registered again
+	// (readd-poll), or deleted and registered again (delete-add-poll), and its agent then polls once more.
+	History string `json:"history,omitempty"`
 }
 
 type Case struct {
@@ -66,6 +69,7 @@ func genCase(t *rapid.T) Case {
 		b := Backend{ID: fmt.Sprintf("b%d", i), EndUser: rapid.SampledFrom([]string{"u1", "u1", "u2", "allUsers", "allUsers"}).Draw(t, "user"),
 			Age: rapid.SampledFrom(ages).Draw(t, "age")}
 		b.Prefixes = rapid.SliceOfN(rapid.SampledFrom(alphabet), 1, 3).Draw(t, "prefixes")
+		b.History = rapid.SampledFrom([]string{"", "", "", "readd-poll", "delete-add-poll"}).Draw(t, "history")
 		c.Backends = append(c.Backends, b)
 	}
 	// ids in a generated order, so that datastore key order is independent of the generation order
@@ -83,7 +87,7 @@ func genCase(t *rapid.T) Case {
 	return c
 }
 
-func live(age string) bool { return age == "0" || age == "4m58s" }
+func live(b Backend) bool { return b.History != "" || b.Age == "0" || b.Age == "4m58s" }
 
 // spec returns the set of acceptable answers ("" stands for 404) and whether the case is non-trivial.
 func spec(backends []Backend, user, path string) (map[string]bool, bool, []string) {
@@ -141,8 +145,11 @@ func spec(backends []Backend, user, path string) (map[string]bool, bool, []strin
 		classes = append(classes, "no-match")
 	}
 	for _, b := range best {
-		if live(b.Age) {
+		if live(b) {
 			acc[b.ID] = true
+			if b.History != "" {
+				classes = append(classes, "best-match-"+b.History)
+			}
 		} else {
 			acc[""] = true
 			nontrivial = true
@@ -167,6 +174,25 @@ func newEnv() *env {
 }
 
 func (e *env) register(b Backend) error {
+	if err := e.register1(b); err != nil {
+		return err
+	}
+	if b.History == "" {
+		return nil
+	}
+	if b.History == "delete-add-poll" {
+		if err := e.st.DeleteBackend(e.ctx, b.ID); err != nil {
+			return err
+		}
+	}
+	if err := e.st.AddBackend(e.ctx, &types.Backend{BackendID: b.ID, BackendUser: "agent-" + b.ID, EndUser: b.EndUser, PathPrefixes: append([]string(nil), b.Prefixes...)}); err != nil {
+		return err
+	}
+	_, err := e.st.ListPendingRequests(e.ctx, b.ID)
+	return err
+}
+
+func (e *env) register1(b Backend) error {
 	if err := e.st.AddBackend(e.ctx, &types.Backend{BackendID: b.ID, BackendUser: "agent-" + b.ID, EndUser: b.EndUser, PathPrefixes: append([]string(nil), b.Prefixes...)}); err != nil {
 		return err
 	}
